@@ -59,10 +59,14 @@ def make_wsdl(nparts, complex_idx, local_prefixes=False, soap12=False):
 def mk_element(k):
     from suds.sax.element import Element
     e = Element("Custom%d" % k, ns=("c%d" % k, "urn:custom:%d" % k))
+    if k % 4 == 3:
+        return e            # a bare marker: no attributes, no content (<c3:Custom3/>) - it is a header entry all the same
     e.set("id", "e%d" % k)
     c = Element("inner", ns=("c%d" % k, "urn:custom:%d" % k))
     c.setText("text<%d>&" % k)
     e.append(c)
+    if k % 2:
+        e.append(Element("flag", ns=("c%d" % k, "urn:custom:%d" % k)))      # an empty child is content too
     return e
 
 
